@@ -51,6 +51,20 @@ theorem group_first_raises (fuel : Nat) (ts rest : List Tree) :
   · rw [py_succ, List.foldlM_cons, step_grp_empty _ _ _ _ rfl]; rfl
   · rw [resolveKernel_succ, List.foldlM_cons]; rfl
 
+/-- with NO hypothesis on the names: for every forest and every budget the code answers like the model or raises IndexError -
+    the model never gives a different answer, it only goes on where the code stops (the empty-name corner above) -/
+theorem py_resolve_kernel_loops_eq_model_or_index_error (fuel : Nat) (toks : List Tree) :
+    py_resolve_kernel_loops fuel toks = resolveKernel fuel toks ∨
+    py_resolve_kernel_loops fuel toks = .error (.fault "IndexError") :=
+  py_eq_model_or_index_error fuel toks
+
+/-- whatever the code returns, the model returns (all forests, all budgets) -/
+theorem py_ok_model_ok (fuel : Nat) (toks : List Tree) (r : List String × List Char)
+    (h : py_resolve_kernel_loops fuel toks = .ok r) : resolveKernel fuel toks = .ok r := by
+  rcases py_eq_model_or_index_error fuel toks with e | e
+  · rw [← e]; exact h
+  · rw [e] at h; cases h
+
 /-- every name of a PIL-legal kernel description is a good name, and so is every name of the token forest of its kernel string -/
 theorem kernel_forest_ok (seq : List String) (sst : List Char) (toks : List Tree)
     (hn : ∀ n ∈ seq, GoodName n = true) (ht : kernelTokens seq sst = some toks) : forestOk toks = true :=
@@ -138,6 +152,8 @@ example : (kernelTokens ["a", "b", "+", "b*", "c", "c*", "a*"] ['(', '(', '+', '
     some (.ok (["a", "b", "+", "b*", "c", "c*", "a*"], ['(', '(', '+', ')', '(', ')', ')'])) := by decide
 
 #print axioms py_resolve_kernel_loops_eq_model
+#print axioms py_resolve_kernel_loops_eq_model_or_index_error
+#print axioms py_ok_model_ok
 #print axioms model_differs_on_empty_name
 #print axioms model_differs_after_star_name
 #print axioms group_first_raises
